@@ -145,6 +145,7 @@ type Exec struct {
 	aliases      []arrAlias
 	skipRecouple bool
 	lastSite     string
+	headStates   map[*ssa.BasicBlock]*State // state at each loop head (after havoc + invariants)
 }
 
 func (x *Exec) fresh(prefix string) string {
